@@ -145,6 +145,18 @@ impl Disk {
         out
     }
 
+    /// Every regular file on the disk: (path, content), in path order.
+    pub fn all_files(&self) -> Vec<(String, Vec<u8>)> {
+        self.names.iter().filter(|(_, ino)| !self.inodes[*ino].is_dir).map(|(p, ino)| (p.clone(), self.inodes[ino].data.clone())).collect()
+    }
+
+    /// Remove a file by path (bootstrap helper, not journalled).
+    pub fn remove_file_quietly(&mut self, path: &str) {
+        if let Some(ino) = self.names.remove(path) {
+            self.drop_link(ino);
+        }
+    }
+
     /// Direct children of a directory: (name, is_dir, inode), in name order.
     pub fn children(&self, dir: &str) -> Vec<(String, bool, u64)> {
         let prefix = if dir == "/" { "/".to_string() } else { format!("{}/", dir) };
